@@ -49,7 +49,7 @@ Overrides == { Override(ks, k2) : ks \in { l \in Layouts : l[1] \in {"req", "val
 WellFormedCls(c) == \A j \in 2..Len(DcFields(c)) :
                        (GetOpt(FOpts(DcFields(c)[j]), "kw_only", FALSE) \/ ~FInit(DcFields(c)[j])) \/ FDflt(DcFields(c)[j])[1] # "req"
 Classes == { Flat(ks) : ks \in Layouts }
-           \cup { Split(ks, s) : ks \in { l \in Layouts : Len(l) >= 2 }, s \in 1..(MaxLen - 1) }
+           \cup UNION { { Split(ks, s) : s \in 1..Len(ks) } : ks \in { l \in Layouts : Len(l) >= 2 } }
            \cup { c \in Overrides : WellFormedCls(c) }
 Good(f) == IF FType(f) = IntL THEN L(<<I(8), I(9)>>) ELSE I(40)
 
